@@ -269,6 +269,67 @@ fn check_partition(cx: &mut Ctx, ifc: &Iface, keys: &Keys, msg: &[u8], parts: &[
     }
 }
 
+/// Poly1305 with operands chosen for carry propagation (r = 1, 2, max, unclamped 0xff; all-0xff and crafted limb-edge
+/// messages), fed in every 2-way split and in 3-way splits around the block boundaries: the accumulator is saved and
+/// reloaded between update calls, which is where a lazily reduced limb can lose a bit
+fn poly_adversarial_chunked(cx: &mut Ctx, keys: &Keys, idx: &mut u64) {
+    const RMAX: [u8; 16] = [0xff, 0xff, 0xff, 0x0f, 0xfc, 0xff, 0xff, 0x0f, 0xfc, 0xff, 0xff, 0x0f, 0xfc, 0xff, 0xff, 0x0f];
+    let mut r1 = [0u8; 16];
+    r1[0] = 1;
+    let mut r2 = [0u8; 16];
+    r2[0] = 2;
+    let rs: [(&str, [u8; 16]); 4] = [("r=1", r1), ("r=2", r2), ("r=max", RMAX), ("r=ff", [0xff; 16])];
+    let ifs: Vec<Iface> = ifaces().into_iter().filter(|i| i.name == "crypto_onetimeauth" || i.name == "OnetimeAuth").collect();
+    let maxlen = cx.tier.pick(40usize, 100, 300);
+    for (rn, r) in rs {
+        for s_ff in [false, true] {
+            let mut k32 = [0u8; 32];
+            k32[..16].copy_from_slice(&r);
+            if s_ff {
+                k32[16..].copy_from_slice(&[0xff; 16]);
+            }
+            let k = Keys { k32, k64: keys.k64, sk: keys.sk, pk: keys.pk };
+            for n in 1..=maxlen {
+                *idx += 1;
+                if !cx.mine(*idx) {
+                    continue;
+                }
+                let mut rng = cx.rng.fork(*idx);
+                // all-0xff, and (whole blocks only) a message crafted to put the accumulator on a limb edge mid-way
+                let mut msgs: Vec<(Vec<u8>, &str)> = vec![(vec![0xffu8; n], "all_ff")];
+                if n >= 32 && n % 16 == 0 && rn != "r=ff" {
+                    if let Some((mut ct, _)) = super::polyedge::craft_ciphertext(&r, n - 16, 5 + n / 16, &mut rng) {
+                        ct.extend_from_slice(&rng.bytes(16));
+                        msgs.push((ct, "limb_edge_before_last_block"));
+                    }
+                }
+                for (msg, fam) in msgs {
+                    for ifc in &ifs {
+                        let case = || json!({"iface":ifc.name,"len":n,"r":rn,"family":fam});
+                        let Some(one) = call(cx, &format!("C08|{}", ifc.name), ifc.name, case, || (ifc.oneshot)(&msg, &k)) else { continue };
+                        if let Some(rf) = ifc.reference {
+                            let w = rf(&msg, &k);
+                            expect_eq(cx, &format!("C08|{}|oneshot_differs_from_libsodium", ifc.name), &one, &w, case);
+                        }
+                        for a in 0..=n {
+                            check_partition(cx, ifc, &k, &msg, &[&msg[..a], &msg[a..]], &one, false);
+                        }
+                        for a in (0..=n).step_by(16) {
+                            for b in [a, a + 1, a + 15, a + 16, a + 17, a + 32] {
+                                if b <= n {
+                                    check_partition(cx, ifc, &k, &msg, &[&msg[..a], &msg[a..b], &msg[b..b], &msg[b..]], &one, false);
+                                }
+                            }
+                        }
+                    }
+                    cx.cover("poly_adversarial_chunked", &format!("{}|{}", rn, fam));
+                }
+                cx.key(&format!("poly adv chunked {} {} {}", rn, s_ff, n));
+            }
+        }
+    }
+}
+
 /// the incremental interface must agree with the one-shot function across *parameters* too, not only across
 /// partitions: key lengths and digest lengths (accepted and refused ones alike), and, for the verifying forms,
 /// authenticators handed over in every container the API accepts (array, exact Vec, a Vec longer than the MAC)
@@ -387,6 +448,7 @@ pub fn run(cx: &mut Ctx) {
     {
         let mut pidx = 1u64 << 40;
         param_agreement(cx, &keys, &mut pidx);
+        poly_adversarial_chunked(cx, &keys, &mut pidx);
     }
     let maxlen = l2.max(l3);
     let base_msg = krng.bytes(maxlen + 1);
